@@ -32,7 +32,11 @@ def families(tier):
     thorough = tier == "thorough"
     D = 1200
     fams = []
-    fams.append(("nest-Branch3", [("d=%d" % d, "[C][Branch3][P][P][P]" * d + "[C]") for d in range(1, D + 1)]))
+    if thorough:
+        depths = list(range(1, D + 1))
+    else:
+        depths = sorted(set(range(1, 65)) | set(range(64, D + 1, 16)) | set(range(900, 1041)) | {D})
+    fams.append(("nest-Branch3", [("d=%d" % d, "[C][Branch3][P][P][P]" * d + "[C]") for d in depths]))
     fams.append(("nest-#Branch3-S", [("d=%d" % d, "[S][#Branch3][P][P][P]" * d + "[=O]") for d in range(1, D + 1, 7)]))
     fams.append(("nest-legacy", [("d=%d" % d, "[C][Branch3_1][P][P][P]" * d + "[C]") for d in range(1, D + 1, 13)]))
     ns = [1, 10, 100, 1000, 3000] + ([10000, 20000] if thorough else [])
@@ -59,7 +63,7 @@ def plan(tier, seed):
     for fi, (fname, members) in enumerate(families(tier)):
         name = "family/" + fname
         scopes.append({"name": name, "members": len(members), "range": "%s .. %s" % (members[0][0], members[-1][0])})
-        step = 40
+        step = 10
         for k in range(0, len(members), step):
             tasks.append((name, ("family", fi, k, k + step, tier)))
     return {"scopes": scopes, "tasks": tasks, "bounds": {"nesting_max": 1200, "fragments_max": 200}}
@@ -67,6 +71,9 @@ def plan(tier, seed):
 
 _SF = None
 _TABLE0 = None
+
+
+_SHARD_TIMER = [False]   # short strings of a shard share one watchdog (600 s per shard) instead of one timer per call
 
 
 class Timeout(BaseException):
@@ -95,12 +102,15 @@ def innermost_selfies_frame(e):
 def call(s, compatible, attribute):
     """returns (class, detail, output)"""
     budget = 20 + len(s) / 100.0
-    signal.setitimer(signal.ITIMER_REAL, budget)
+    timed = len(s) > 200 or not _SHARD_TIMER[0]
+    if timed:
+        signal.setitimer(signal.ITIMER_REAL, budget)
     try:
         try:
             res = _SF.decoder(s, compatible=compatible, attribute=attribute)
         finally:
-            signal.setitimer(signal.ITIMER_REAL, 0)
+            if timed:
+                signal.setitimer(signal.ITIMER_REAL, 0)
     except _SF.DecoderError:
         return "DecoderError", None, None
     except Timeout:
@@ -149,8 +159,17 @@ def run(task):
     if arg[0] == "strings":
         _, an, L, sh = arg
         w = None
-        for w in E1.nodes(ALPH[an], L, sh):
-            check("".join(w), r)
+        signal.setitimer(signal.ITIMER_REAL, 600)
+        _SHARD_TIMER[0] = True
+        try:
+            for w in E1.nodes(ALPH[an], L, sh):
+                check("".join(w), r)
+        except Timeout:
+            r.violation("timeout", {"input": "".join(w), "compatible": None, "attribute": None},
+                        "shard watchdog (600 s) expired while decoding %r" % ("".join(w),))
+        finally:
+            signal.setitimer(signal.ITIMER_REAL, 0)
+            _SHARD_TIMER[0] = False
         if w is not None:
             r.sample({"scope": scope, "input": "".join(w)}, 1)
     else:
